@@ -2646,3 +2646,35 @@ Proof.
     { unfold merge_step. destruct (st_dead _); reflexivity. }
     rewrite Hnone. cbn [is_count_out is_ccount_of]. rewrite str_eqb_refl, (no_ccount_count sub w Hnc). lia.
 Qed.
+
+(** among the children's replies the merged COUNT is the first (lowest child
+    index) that carries the maximum — what [slices.MaxFunc] returns *)
+Lemma cnt_merge_first xs r :
+  cnt_merge (List.map Some xs) = Some r ->
+  exists before after, xs = before ++ r :: after /\ forall b, In b before -> c_count b < c_count r.
+Proof.
+  unfold cnt_merge. rewrite all_some_map. destruct xs as [|m l]; [discriminate|]. intro H.
+  inversion H; subst r. apply first_max_first.
+Qed.
+
+Theorem count_is_first_max_reach n pre sub w1 x w2 r :
+  (2 <= n)%nat -> trace_ok n (pre ++ CCount sub :: w1 ++ x :: w2) -> no_ccount sub (w1 ++ x :: w2) ->
+  nth_error (cnt_outs (final (init n) pre) sub (w1 ++ x :: w2)) (length w1) = Some (Some (SCount r)) ->
+  c_sub r = sub ->
+  exists before after,
+    cnt_replies n sub (w1 ++ [x]) = List.map Some (before ++ r :: after) /\
+    forall b, In b before -> c_count b < c_count r.
+Proof.
+  intros Hn Ht Hnc Hnth Hid. destruct (trace_ok_window _ _ _ _ Ht) as [H1 [_ H2]].
+  assert (Hs : state_ok n (final (init n) pre)) by now apply reach_ok.
+  destruct (after_ccount n _ sub Hs) as [Hs1 H0].
+  unfold cnt_outs in Hnth. rewrite outs_nth in Hnth. inversion Hnth as [Hout]. clear Hnth.
+  pose proof (cnt_window_out n sub _ w1 x (ge2_ge1 n Hn) Hs1 H0 (trace_ok_mid _ _ _ _ H2) (no_ccount_mid _ _ _ _ Hnc)) as Ho.
+  destruct (negb (all_counted n sub w1) && all_counted n sub (w1 ++ [x])) eqn:Ec.
+  2:{ rewrite Hout in Ho. cbn in Ho. rewrite Hid, str_eqb_refl in Ho. discriminate. }
+  destruct Ho as [r' [Er' [_ Em]]]. rewrite Hout in Er'. inversion Er'; subst r'.
+  apply andb_true_iff in Ec as [_ Ea']. unfold all_counted in Ea'. apply negb_true_iff in Ea'.
+  destruct (full_vector _ Ea') as [xs Exs]. rewrite Exs in Em.
+  destruct (cnt_merge_first xs r Em) as [before [after [E Hb]]].
+  exists before, after. split; [now rewrite Exs, E | exact Hb].
+Qed.
